@@ -259,6 +259,17 @@ def handleMk (st : St) (k : Nat) (kindFull : String) (args : List String) : St Ã
        let len := ps.foldl (fun m p => max m (p + 1)) 0
        mkResult st k (do let b â† BV.fromPositions ps; pure (.da (s0 == "1") (DA.new (s0 == "1") b) (bitsFrom len ps)))
      | _ => (st, "bad-op"))
+  | "qvx" =>
+    let vals := args.map int!
+    mkResult st k (do let q â† QV.fromIter vals; pure (.qv q (vals.map (fun v => (v % 4).toNat))))
+  | "qvpush" | "qvext" =>
+    let vals := (args.drop 1).map int!
+    let cap := args.getD 0 "-"
+    mkResult st k (do
+      if cap != "-" then let _ â† QV.withCapacity (nat! cap)
+      let q â† QV.fromIter vals
+      pure (.qv q (vals.map (fun v => (v % 4).toNat))))
+  | "qvbcap" => mkResult st k (do let b â† QV.withCapacity (nat! (args.getD 0 "0")); pure (.qv b []))
   | "qv" =>
     let vals := args.map int!
     mkResult st k (do let q â† QV.fromIter vals; pure (.qv q (vals.map (fun v => (v % 4).toNat))))
